@@ -410,3 +410,23 @@ Proof.
   - apply wf_dagb_sound. vm_compute. reflexivity.
   - intros st lk. split; reflexivity.
 Qed.
+
+(* when the jugfile does not select its store, the two stores are one and the call is [cached_call] *)
+Lemma cached_dirs_same : forall d file x, cached_call_dirs d file x x = cached_call d file (fst x) (snd x).
+Proof. intros d file x. unfold cached_call_dirs, cached_call. destruct file; reflexivity. Qed.
+
+(* known finding D27: a jugfile that selects its store (jug.set_jugdir) while --jugdir names another,
+   empty location.  u = a(1); v = b(u).  First call: nothing stored; then both results are stored
+   (only added); the second cached call still prints ready / waiting, the uncached one complete. *)
+Lemma cached_ignores_jugfile_store : exists (d : dag) (s1 s2 sa : store) (lk : locks),
+  ordered_dag d /\ monotone (fun _ => false) [(s1, lk); (s2, lk)] /\
+  exists ev1 db1 ev2 db2,
+    cached_call_dirs d None (s1, lk) (sa, lk) = Some (ev1, db1) /\ ev1 = status_events d s1 lk /\
+    cached_call_dirs d (Some db1) (s2, lk) (sa, lk) = Some (ev2, db2) /\
+    map snd ev2 = [Ready; Waiting] /\ map snd (status_events d s2 lk) = [Complete; Complete].
+Proof.
+  exists [(1, 10, []); (2, 11, [1])]%positive, (st_of []), (st_of [1; 2]%positive), (st_of []), (lk_of []).
+  split; [apply ordered_dagb_spec; reflexivity|].
+  split; [simpl; repeat split; intros t H; discriminate|].
+  eexists. eexists. eexists. eexists. repeat split.
+Qed.
